@@ -904,39 +904,9 @@ func rulesC08(w *World, o *Out) {
 	// ---- R3 ----------------------------------------------------------------------
 	computeWiringTypes(w)
 	o.Count("C08.R3 long-lived (wiring-allocated) types", len(wiringTypes), 10)
-	all := w.Reach(entryFns(w.EntriesOf("msg", "abci", "ante", "gov", "wasm", "hook", "query")), nil)
-	nStores := 0
-	var afns []*ssa.Function
-	for f := range all {
-		afns = append(afns, f)
-	}
-	sort.Slice(afns, func(i, j int) bool { return w.FuncKey(afns[i]) < w.FuncKey(afns[j]) })
-	for _, f := range afns {
-		if !w.IsProd(f) {
-			continue
-		}
-		for _, b := range f.Blocks {
-			for _, in := range b.Instrs {
-				switch x := in.(type) {
-				case *ssa.Store:
-					nStores++
-					if g, ok := baseOf(x.Addr).(*ssa.Global); ok {
-						o.Fail("C08.R3", w.FuncKey(f)+"|store to package variable "+g.Name(), w.Pos(x.Pos()), "package-level state written on a runtime path survives the call", w.Path(all, f)...)
-						continue
-					}
-					if longLived(f, x.Addr) {
-						o.Fail("C08.R3", w.FuncKey(f)+"|store into long-lived object "+fieldPath(x.Addr), w.Pos(x.Pos()),
-							"a field of a keeper-level object reached through a pointer is written on a runtime path; the value survives into later blocks and queries", w.Path(all, f)...)
-					}
-				case *ssa.MapUpdate:
-					nStores++
-					if longLived(f, x.Map) {
-						o.Fail("C08.R3", w.FuncKey(f)+"|map update in long-lived object "+fieldPath(x.Map), w.Pos(x.Pos()),
-							"a map held by a keeper-level object is updated on a runtime path; the entry survives into later blocks and queries", w.Path(all, f)...)
-					}
-				}
-			}
-		}
+	mw, nStores, all := inMemoryWrites(w)
+	for _, m := range mw {
+		o.Fail("C08.R3", m.key, m.pos, m.detail, w.Path(all, m.fn)...)
 	}
 	o.Count("C08.R3 stores examined on runtime/query paths", nStores, 1000)
 	// positive control for R3: wiring-time registration functions do store into keeper objects
@@ -1268,4 +1238,113 @@ func isParamRoot(m map[ssa.Value]bool) bool {
 		}
 	}
 	return false
+}
+
+// ---- in-memory state written on runtime paths (shared by C08.R3 and the per-module rules) --------
+
+type memWrite struct {
+	fn       *ssa.Function
+	key, pos string
+	detail   string
+}
+
+var memWritesMemo struct {
+	done    bool
+	w       *World
+	list    []memWrite
+	nStores int
+	all     ReachSet
+}
+
+// inMemoryWrites: every store into a package variable, into a long-lived (wiring-time) object, or
+// through a sync.Map / sync/atomic value that is not function-local, in production functions reachable
+// from runtime entry points and queries. Such state is not part of the multistore: it is not rolled
+// back with a failed transaction, a simulation or a discarded cache context.
+func inMemoryWrites(w *World) ([]memWrite, int, ReachSet) {
+	if memWritesMemo.done && memWritesMemo.w == w {
+		return memWritesMemo.list, memWritesMemo.nStores, memWritesMemo.all
+	}
+	computeWiringTypes(w)
+	all := w.Reach(entryFns(w.EntriesOf("msg", "abci", "ante", "gov", "wasm", "hook", "query")), nil)
+	nStores := 0
+	var out []memWrite
+	var afns []*ssa.Function
+	for f := range all {
+		afns = append(afns, f)
+	}
+	sort.Slice(afns, func(i, j int) bool { return w.FuncKey(afns[i]) < w.FuncKey(afns[j]) })
+	for _, f := range afns {
+		if !w.IsProd(f) {
+			continue
+		}
+		for _, b := range f.Blocks {
+			for _, in := range b.Instrs {
+				switch x := in.(type) {
+				case *ssa.Store:
+					nStores++
+					if g, ok := baseOf(x.Addr).(*ssa.Global); ok {
+						out = append(out, memWrite{f, w.FuncKey(f) + "|store to package variable " + g.Name(), w.Pos(x.Pos()), "package-level state written on a runtime path survives the call"})
+						continue
+					}
+					if longLived(f, x.Addr) {
+						out = append(out, memWrite{f, w.FuncKey(f) + "|store into long-lived object " + fieldPath(x.Addr), w.Pos(x.Pos()),
+							"a field of a keeper-level object reached through a pointer is written on a runtime path; the value survives into later blocks and queries"})
+					}
+				case *ssa.MapUpdate:
+					nStores++
+					if longLived(f, x.Map) {
+						out = append(out, memWrite{f, w.FuncKey(f) + "|map update in long-lived object " + fieldPath(x.Map), w.Pos(x.Pos()),
+							"a map held by a keeper-level object is updated on a runtime path; the entry survives into later blocks and queries"})
+					}
+				case ssa.CallInstruction:
+					c, ok := CalleeOf(x.Common())
+					if !ok || (c.Pkg != "sync" && c.Pkg != "sync/atomic") {
+						continue
+					}
+					mut := false
+					switch c.Name {
+					case "Store", "LoadOrStore", "LoadAndDelete", "Delete", "Swap", "CompareAndSwap", "CompareAndDelete", "Clear", "Add", "And", "Or":
+						mut = c.Recv == "Map" || c.Pkg == "sync/atomic"
+					}
+					if c.Pkg == "sync/atomic" && c.Recv == "" && (strings.HasPrefix(c.Name, "Store") || strings.HasPrefix(c.Name, "Add") || strings.HasPrefix(c.Name, "Swap") || strings.HasPrefix(c.Name, "CompareAndSwap")) {
+						mut = true
+					}
+					if !mut || len(x.Common().Args) == 0 {
+						continue
+					}
+					nStores++
+					if _, local := baseOf(x.Common().Args[0]).(*ssa.Alloc); local {
+						continue
+					}
+					out = append(out, memWrite{f, w.FuncKey(f) + "|" + c.Pkg + "." + c.Recv + "." + c.Name + " on a shared object", w.Pos(x.Pos()),
+						"a concurrent map / atomic value that outlives the call is written on a runtime path: an in-memory cache beside the store, not rolled back with it"})
+				}
+			}
+		}
+	}
+	memWritesMemo.done, memWritesMemo.w, memWritesMemo.list, memWritesMemo.nStores, memWritesMemo.all = true, w, out, nStores, all
+	return out, nStores, all
+}
+
+// memStateRule: the decisions of the modules under pkgs are taken from committed store state only.
+func memStateRule(w *World, o *Out, rule, what string, pkgs ...string) {
+	mw, _, all := inMemoryWrites(w)
+	n := 0
+	for _, m := range mw {
+		p := funcPkgPath(m.fn)
+		hit := false
+		for _, q := range pkgs {
+			if strings.Contains(p, q) {
+				hit = true
+			}
+		}
+		if !hit {
+			continue
+		}
+		n++
+		o.Fail(rule, m.key, m.pos, what+": "+m.detail+" (a value remembered outside the multistore is not rolled back when a transaction, simulation or cached branch is discarded, so later decisions are taken from state that was never committed)", w.Path(all, m.fn)...)
+	}
+	if n == 0 {
+		o.Pass(rule, strings.Join(pkgs, ",")+"|no in-memory state beside the store on runtime paths", "-", what)
+	}
 }
